@@ -13,6 +13,15 @@ Proof.
   eapply chain_ok_prefix; eauto.
 Qed.
 
+Lemma e1_ids s : reachable s -> forall i e, nth_error (persisted s) i = Some e -> e_id e = i.
+Proof. intros R. exact (proj1 (e1_chain s R)). Qed.
+Lemma e1_linked s : reachable s -> chain_linked (persisted s).
+Proof. intros R. exact (proj1 (proj2 (e1_chain s R))). Qed.
+Lemma e1_txids s : reachable s -> txids_contiguous (persisted s).
+Proof. intros R. exact (proj2 (proj2 (e1_chain s R))). Qed.
+Lemma e1_inflight s : reachable s -> chain_ok (all_log s) /\ v_last s = last_entry (all_log s).
+Proof. intros R. split; [exact (i_chain _ (reachable_inv s R)) | exact (i_last _ (reachable_inv s R))]. Qed.
+
 (* ---- C06 -------------------------------------------------------------------------------------------------- *)
 Theorem e1_ack s : reachable s -> ack_persisted s.
 Proof.
